@@ -427,6 +427,20 @@ def d2(ctx):
                               '%s: the sort is not guarded by the dict-order mode of the caller\'s '
                               'namespace with global inheritance (facts on the path: %s)'
                               % (inst(f), facts), c.loc)
+    # the mode is a property of a traversal, fixed before its first node: the functions that run
+    # once per node (recursive *Impl, the iterator's step) never read the live mode - a block
+    # entered or left while a lazy traversal is in flight must not change its second half
+    for name in ('PyTreeSpec::FlattenIntoImpl', 'PyTreeSpec::FlattenIntoWithPathImpl', 'PyTreeIter::NextImpl'):
+        for f in [x for x in prog.by_suffix(name) if not x.dependent]:
+            fam = [f] + prog.lambdas_of(f)
+            live = [c for g in fam if g.body is not None for c in calls_in(g.body, {'IsDictInsertionOrdered'})]
+            ctx.check(short(f) + '/mode-read-once', not live,
+                      '%s: the per-node step uses the mode fixed at the start of the traversal' % inst(f),
+                      '%s reads the live dict-order mode for every node (IsDictInsertionOrdered at %s): '
+                      'a mode block entered or left between two steps of one traversal mixes both '
+                      'orders in one result' % (inst(f), live[0].loc if live else ''),
+                      live[0].loc if live else f.loc)
+            sites += 1
     # the iterator captures the mode of its own namespace with inheritance at construction
     ctor = [f for f in live_funcs(prog) if f.record == 'optree::PyTreeIter' and f.name == 'PyTreeIter']
     ctx.require(ctor, 'PyTreeIter constructor not found')
